@@ -39,6 +39,7 @@ type Restrict struct {
 	SmallValues bool // keep objects small (used by enumeration checks)
 	NoImages    bool // no pre-encoded DCT / JBIG2 / CCITTFax streams
 	Bulk        bool // now and then a program writes thousands of small objects
+	BulkOneIn   int  // how often (default: one program in 150)
 	WrongLength bool // now and then OpenStream gets a /Length that disagrees with the data
 	// HostileStreams: now and then a stream carries a forged LZW, JPEG or
 	// JBIG2 body (hostile, not necessarily decodable; no expectation is
@@ -320,7 +321,11 @@ func (x *exec) run(sink io.Writer) {
 		x.setInfo()
 	}
 	bulkAt := -1
-	if x.r.Bulk && t.Bool("bulk", 1, 150) {
+	bulkDen := 150
+	if x.r.BulkOneIn > 0 {
+		bulkDen = x.r.BulkOneIn
+	}
+	if x.r.Bulk && t.Bool("bulk", 1, bulkDen) {
 		// thousands of small objects of irregular size: cross-reference data
 		// beyond one buffer (1024 bytes of compressed xref stream and more)
 		bulkAt = t.Draw("bulk.at", nOps)
